@@ -298,3 +298,21 @@ func Equalish(a, b reflect.Value) bool {
 	}
 	return reflect.DeepEqual(a.Interface(), b.Interface())
 }
+
+// TruncSeconds returns a copy of the row with all times truncated to whole seconds.
+func TruncSeconds(row interface{}) interface{} {
+	cp := reflect.New(reflect.TypeOf(row).Elem())
+	cp.Elem().Set(reflect.ValueOf(row).Elem())
+	v := cp.Elem()
+	for i := 0; i < v.NumField(); i++ {
+		f := v.Field(i)
+		if f.Type() == reflect.TypeOf(time.Time{}) {
+			f.Set(reflect.ValueOf(f.Interface().(time.Time).Truncate(time.Second)))
+		}
+		if f.Type() == reflect.TypeOf((*time.Time)(nil)) && !f.IsNil() {
+			t := f.Elem().Interface().(time.Time).Truncate(time.Second)
+			f.Set(reflect.ValueOf(&t))
+		}
+	}
+	return cp.Interface()
+}
